@@ -24,6 +24,19 @@ type Sliceable interface {
 	Slice(start, end int) interface{}
 }
 
+// Rotatable represents metadata that follows a change of origin of a circular
+// sequence of the given length.
+type Rotatable interface {
+	Rotate(n, length int) interface{}
+}
+
+func tryRotate(info interface{}, n, length int) interface{} {
+	if v, ok := info.(Rotatable); ok {
+		return v.Rotate(n, length)
+	}
+	return info
+}
+
 func tryShift(info interface{}, i, n int) interface{} {
 	if v, ok := info.(Shiftable); ok {
 		return v.Shift(i, n)
@@ -265,6 +278,9 @@ func Slice(seq Sequence, start, end int) Sequence {
 	if end < start {
 		length := seqlen - start + end
 		seq = Rotate(seq, -start)
+		// The window runs through the origin: coordinate-bearing metadata
+		// has to be brought into the rotated frame before it is sliced.
+		seq = WithInfo(seq, tryRotate(seq.Info(), seqlen-start, seqlen))
 		return Slice(seq, 0, length)
 	}
 
